@@ -14,6 +14,7 @@ the closer's COMPLETE stream and then the end of the connection. A stall is re-r
 import os, random, socket, threading, time, select
 from lab import base, httpref
 from lab.lab import Lab, run_cases
+from lab.x_relay import start_lab
 
 LIVENESS = os.environ.get("VERIF_LIVENESS", "")
 SIZES = [0, 1, 2, 100, 1000, 4095, 4096, 4097, 16383, 16384, 16385, 32768, 65535, 65536, 65537, 100000, 262144]
@@ -149,7 +150,7 @@ def first_diff(x, y):
 
 def run(a, res):
     tier = a.tier
-    lab = Lab(a, res, handler=None, conf="", debug=os.environ.get("VERIF_SQUID_DEBUG", "ALL,1"))
+    lab = start_lab(a, res, handler=None, conf="", debug=os.environ.get("VERIF_SQUID_DEBUG", "ALL,1"))
     wit = lambda c: {"seed": c["seed"], "case": c["n"]}
 
     def attempt(c):
